@@ -66,7 +66,8 @@ def isAccepted (r : String) : Bool := r == "ok" || r.startsWith "werr:"
 
 /-- the call must be rejected up front: a message larger than BatchBytes or a topic conflict / missing topic -/
 def mustReject (cfg : MCfg) (c : CDecl) : Bool :=
-  c.msgs.any (fun m => decide (cfg.bb < m.size) || (cfg.topic ≠ "" && m.topic ≠ "") || (cfg.topic == "" && m.topic == ""))
+  c.msgs.any (fun m => decide (cfg.bb < m.size) || (cfg.topic ≠ "" && m.topic ≠ "") || (cfg.topic == "" && m.topic == "") ||
+    m.topic == "nope")     -- "nope": the one topic the fake cluster does not have (metadata lookup fails)
 
 /-! ## C08 -/
 
@@ -145,11 +146,11 @@ def holdsC01 (cfg : MCfg) (calls : List CDecl) (journal : List JReq) (obs : Obs)
   (if cfg.compl then
      calls.all (fun c =>
        let r := retOf obs c.id
-       if isAccepted r then
+       if isAccepted r || r == "ctx" then
          (c.msgs.zipIdx).all (fun (m, i) =>
            match obs.cbs.filter (·.1 == m.key) with
            | [cb] => (cb.2 == "ok") == ackedOn cfg journal m &&
-                     (if r.startsWith "werr:" then (werrCodes r)[i]? == some cb.2 else (cfg.async || cb.2 == "ok"))
+                     (if r.startsWith "werr:" then (werrCodes r)[i]? == some cb.2 else (cfg.async || r == "ctx" || cb.2 == "ok"))
            | _ => false)
        else c.msgs.all (fun m => obs.cbs.all (·.1 != m.key)))
    else obs.cbs.isEmpty) &&
